@@ -426,8 +426,65 @@ func wireFormatProblems(a *model.Claims, enc []byte) []string {
 }
 
 func runC10(c *mon.Ctx) {
-	c.Rule("valid claims-sets of both profiles (all optional subsets, hash sizes, 1-4 components with optional text incl. non-ASCII/control characters, P1 flag or list, P1 with/without explicit profile), built directly, through setters, or obtained by decoding conformant wire tokens (incl. permuted key order and unknown extra keys); the bytes of ValidateAndEncodeClaimsToCBOR are parsed by the independent reader and compared, as an order-insensitive map, with the expected wire of the abstract set: one definite map, no trailing bytes, no duplicate / foreign / missing keys, no null, right type and exact value, single nonce as bare bstr, never list+flag, component keys within {1,2,4,5,6}. distinct_nontrivial = distinct (profile, route, optional-subset, nonce size, component count) signatures")
+	c.Rule("valid claims-sets of both profiles (all optional subsets, hash sizes, 1-4 components with optional text incl. non-ASCII/control characters, P1 flag or list, P1 with/without explicit profile), built directly, through setters, or obtained by decoding conformant wire tokens (incl. permuted key order and unknown extra keys); also sets with 22..26 and 254..257 (thorough: 65535..65537) components (array-header boundaries); every returned encoding is kept and re-checked after six further encodes; the bytes of ValidateAndEncodeClaimsToCBOR are parsed by the independent reader and compared, as an order-insensitive map, with the expected wire of the abstract set: one definite map, no trailing bytes, no duplicate / foreign / missing keys, no null, right type and exact value, single nonce as bare bstr, never list+flag, component keys within {1,2,4,5,6}. distinct_nontrivial = distinct (profile, route, optional-subset, nonce size, component count) signatures")
 	g := model.NewGen(c.Seed*1201 + int64(c.Shard))
+	held10 := &returnedBytes{prop: "C10"}
+	// component lists at the CBOR array-header boundaries
+	counts := []int{22, 23, 24, 25, 26, 254, 255, 256, 257}
+	if !c.Quick() {
+		counts = append(counts, 65535, 65536, 65537)
+	}
+	for ci, n := range counts {
+		for p := 1; p <= 2; p++ {
+			if !c.Mine(ci*2 + p) {
+				continue
+			}
+			a := g.Valid(p)
+			a.HasComps, a.NoMeas, a.Comps = true, nil, nil
+			for j := 0; j < n; j++ {
+				a.Comps = append(a.Comps, g.ValidComp())
+			}
+			for _, route := range []string{"direct", "setters", "decoded"} {
+				var x psatoken.IClaims
+				var err error
+				switch route {
+				case "direct":
+					x, err = obs.Build(a)
+				case "setters":
+					x, err = obs.SetterBuild(a)
+				default:
+					x, err = psatoken.DecodeClaimsFromCBOR(refcbor.Encode(a.WireCBOR()))
+				}
+				sig := fmt.Sprintf("component-count|P%d|%d|%s", p, n, route)
+				c.Sig(sig)
+				if err != nil {
+					c.Violation(fmt.Sprintf("C10/P%d/many-components-unbuildable", p), fmt.Sprintf("a valid claims-set with %d components could not be obtained via %s: %v", n, route, err), map[string]any{"sig": sig})
+					continue
+				}
+				var enc []byte
+				if pn, pv, fr := mon.Guard(func() { enc, err = psatoken.ValidateAndEncodeClaimsToCBOR(x) }); pn {
+					c.Violation("C10/panic/"+mon.PanicKey(fr), "panic while encoding", map[string]any{"panic": pv, "frame": fr, "sig": sig})
+					continue
+				}
+				c.Eval()
+				if err != nil {
+					c.Violation(fmt.Sprintf("C10/P%d/encode-failed", p), fmt.Sprintf("encoding a valid set with %d components failed: %v", n, err), map[string]any{"sig": sig})
+					continue
+				}
+				if probs := wireFormatProblems(a, enc); len(probs) > 0 {
+					c.Violation(fmt.Sprintf("C10/P%d/components=%d/%s", p, n, probs[0]), fmt.Sprintf("emitted CBOR of a set with %d components deviates from the wire format: %v", n, probs), map[string]any{"sig": sig, "emitted_hex_prefix": mon.Hex(enc[:min(len(enc), 200)])})
+					continue
+				}
+				// and it must come back
+				if y, derr := psatoken.DecodeAndValidateClaimsFromCBOR(enc); derr != nil {
+					c.Violation(fmt.Sprintf("C10/P%d/components=%d/not-decodable", p, n), "own encoding of a valid set does not decode+validate: "+derr.Error(), map[string]any{"sig": sig})
+				} else if scs, gerr := y.GetSoftwareComponents(); gerr != nil || len(scs) != n {
+					c.Violation(fmt.Sprintf("C10/P%d/components=%d/count-changed", p, n), fmt.Sprintf("%d components came back (%v)", len(scs), gerr), map[string]any{"sig": sig})
+				}
+				c.Count("component-count-boundary-cases")
+			}
+		}
+	}
 	n := c.N(250000, 6000000)
 	for i := 0; i < n; i++ {
 		var a *model.Claims
@@ -479,10 +536,12 @@ func runC10(c *mon.Ctx) {
 			c.Violation(fmt.Sprintf("C10/P%d/%s", a.P, probs[0]), fmt.Sprintf("emitted CBOR deviates from the profile's wire format: %v", probs),
 				map[string]any{"sig": sig, "emitted_hex": mon.Hex(enc), "expected_diag": a.WireCBOR().Diag(), "problems": probs})
 		}
+		held10.add(c, enc, "ValidateAndEncodeClaimsToCBOR", sig, nil, nil)
 		if i < 2 {
 			c.Sample("emitted", map[string]any{"sig": sig, "hex": mon.Hex(enc)})
 		}
 	}
+	c.Floor("component-count-boundary-cases", 30)
 	c.Floor("emitted:P1", 1000)
 	c.Floor("emitted:P2", 1000)
 	c.Floor("route:decoded-wire", 500)
